@@ -27,6 +27,8 @@ structure Cfg where
   maxLogical    : Nat
   maxResetGapMs : Nat
   maxRetry      : Nat
+  bits          : Nat := 0   -- suffix bits in use (0: no dc-locations / the global allocator in normal mode)
+  suffix        : Nat := 0   -- this allocator's suffix (< 2^bits)
   deriving Repr, DecidableEq
 
 def msOf (ns : Nat) : Nat := ns / 1000000
@@ -95,7 +97,7 @@ def saveTxn (s : St) (m : Nat) (save : Nat) (f : Fault) : St × Bool × Out :=
     else (s, false, if f = .errAfter then .errSave else .errConflict)
 
 /-- one `generateTSO` + the checks of `getTS`, repeated like the retry loop does (fuel = maxRetryCount).
-    `suffixBits = 0` (no dc-locations). -/
+    The raw counter is what the memory holds; the response carries `raw << bits | suffix`. -/
 def getTSLoop (s : St) (m : Nat) (count : Nat) : Nat → St × Out
   | 0 => (s, .errExceeded)
   | fuel + 1 =>
@@ -105,9 +107,11 @@ def getTSLoop (s : St) (m : Nat) (count : Nat) : Nat → St × Out
     | some p =>
       let l := x.logical + count
       let s1 := s.setMem m { x with logical := l }
-      if l ≥ s.cfg.maxLogical then getTSLoop s1 m count fuel
+      -- `differentiateLogical`: the returned logical part carries the suffix in its low bits
+      if l * 2 ^ s.cfg.bits + s.cfg.suffix ≥ s.cfg.maxLogical then getTSLoop s1 m count fuel
       else if !x.lease then (s1, .errNotLeader)
-      else ({ s1 with grants := ⟨m, msOf p, x.logical, l, p, s.stored⟩ :: s.grants }, .ts (msOf p) l)
+      else ({ s1 with grants := ⟨m, msOf p, x.logical, l, p, s.stored⟩ :: s.grants },
+            .ts (msOf p) (l * 2 ^ s.cfg.bits + s.cfg.suffix))
 
 /-- `GenerateTSO`: leadership pre-check, then `getTS` -/
 def getTS (s : St) (m : Nat) (count : Nat) : St × Out :=
